@@ -36,7 +36,7 @@ def run_check(c, tier='quick'):
 
 
 def main():
-    ids = sys.argv[1:] or sorted(d for d in os.listdir(f'{V}/seeded') if os.path.isdir(f'{V}/seeded/{d}'))
+    ids = sys.argv[1:] or sorted(d for d in os.listdir(f'{V}/seeded') if os.path.isdir(f'{V}/seeded/{d}') and d != 'rejected')
     assert sh('git diff --quiet', cwd='/repo').returncode == 0, "/repo dirty"
     for pid in ids:
         d = f'{V}/seeded/{pid}'
